@@ -145,6 +145,123 @@ R.contract(
     locals={"deltas_for_gid": "List[T1Delta]"},
 )
 
+# ------------------------------------------------------------------ label collection + seeding region of _t1_one_graph
+# "seeds only nodes whose label or tag occurs in the input text" (soundness direction of "exactly"; the converse --
+# every such node is seeded -- needs `exists j` witnesses through two nested append loops and is not discharged yet:
+# z3 times out on re-establishing them across the Store-encoded appends; _match_keywords itself is proved both ways).
+# Node = the dataclass fields read here; attrs is a dict read only through .get("tags", []): a missing key is the same
+# as []; tags are strings (type invariant of the graph store: the isinstance(kw, str) filter is then always true).
+R.dictshape("T1Attrs", {"tags": "List[str]"})
+R.record("T1Node", {"id": "str", "label": "str", "attrs": "T1Attrs"})
+R.untype("NKey")      # the keys of g.nodes are only iterated (values()), never inspected
+R.objtype("T1Graph", {"nodes": "Dict[Un[NKey], T1Node]"})
+_TAGS = "node_tags(%(n)s)"
+_NODE_HIT = "(kwhit(text, %(n)s.label) or exists(t, 0 <= t < len(" + _TAGS + "), kwhit(text, " + _TAGS + "[t])))"
+_LBL_OF = ("(%(l)s[0] == %(n)s.id and len(%(l)s[1]) > 0 and (%(l)s[1] == %(n)s.label or "
+           "exists(t, 0 <= t < len(" + _TAGS + "), " + _TAGS + "[t] == %(l)s[1])))")
+R.contract(
+    ONE, "C12", name="_t1_one_graph[label-collection region]", callee=False,
+    region=("labels: List[Tuple[str, str]] = []", "seeds = _match_keywords(text, labels)"),
+    types={"gid": "str", "g": "T1Graph", "text": "str"},
+    axioms=AX_KWHIT,
+    ensures=[
+        ("only-nodes-with-matching-label-or-tag-seeded",
+         "forall((s, 'str'), s in seeds, exists((k, 'Un[NKey]'), k in g.nodes, g.nodes[k].id == s and " + _NODE_HIT % {"n": "g.nodes[k]"} + "))"),
+        ("every-collected-label-belongs-to-a-node",
+         "forall(j, 0 <= j < len(labels), exists((k, 'Un[NKey]'), k in g.nodes, " + _LBL_OF % {"l": "labels[j]", "n": "g.nodes[k]"} + "))"),
+        ("seed-weight-one", "forall((s, 'str'), s in seeds, seeds[s] == 1.0)"),
+        ("graph-untouched", "seq_eq(g.nodes, old(g.nodes))"),
+    ],
+    raises="none",
+    loops={
+        0: {"inv": [
+            "forall(j, 0 <= j < len(labels), exists((k, 'Un[NKey]'), k in _done, " + _LBL_OF % {"l": "labels[j]", "n": "g.nodes[k]"} + "))",
+        ]},
+        # inner loop: the entries present at its start are kept; what it appends comes from the tags of `n` seen so far
+        1: {"index": "_t", "iter": "_tags", "inv": [
+            "seq_eq(_tags, " + _TAGS % {"n": "n"} + ")",
+            "len(pre_loop(labels)) <= len(labels)",
+            "forall(j, 0 <= j < len(pre_loop(labels)), labels[j] == pre_loop(labels)[j])",
+            "forall(j, len(pre_loop(labels)) <= j and j < len(labels), labels[j][0] == n.id and len(labels[j][1]) > 0 and "
+            "exists(t, 0 <= t < _t, _tags[t] == labels[j][1]))",
+        ]},
+    },
+    locals={"labels": LBL, "tags": "List[str]"},
+    feas_timeout_ms=60,
+    unreachable_ok=["tags = []"],    # the `except Exception` arm: list(attrs.get("tags", [])) cannot raise for a dict-valued attrs
+)
+
+# ------------------------------------------------------------------ propagation loop of _t1_one_graph (region, perf caps off)
+# heap `pq` = trusted multiset model (pyvc/externals.py: heappush adds, heappop removes and returns a least tuple);
+# acc = defaultdict(float).  t1_reach(v, d) is any relation closed under "seeds at distance 0" and "one csr edge = one
+# more hop" (axioms below): what is proved of it holds of true reachability, the least such relation.
+R.record("T1Edge", {"weight": "float", "rel": "str"})
+R.uf("t1_reach", ["Un[Nid]", "int"], "bool")
+CSR_T = "Dict[Un[Nid], List[Tuple[Un[Nid], T1Edge]]]"
+NMAP = "Dict[Un[Nid], float]"
+R.dictrec("T1DecayFull", {"mode": "str", "alpha": "float", "rate": "float", "floor": "float"})
+R.dictrec("T1CfgDecayFull", {"decay": "T1DecayFull"})
+_RC1 = "(not is_none(relax_cap) and some(relax_cap) >= 1)"
+_CAPS = ("forall((v, 'Un[Nid]'), v in dist, t1_reach(v, dist[v]) and (dist[v] == 0 or "
+         "(1 <= dist[v] and dist[v] <= radius_cap and dist[v] <= effective_iter_cap_layers)))")
+_COMMON_INV = [
+    _CAPS,
+    "forall((v, 'Un[Nid]'), v in acc, v in dist)",
+    "forall(p, 0 <= p < len(pq), pq[p][2] in dist)",
+    "forall((s, 'Un[Nid]'), s in seeds, s in acc)",
+    "propagations >= 0 and radius_cap_hits_local >= 0 and layer_hits_local >= 0 and node_budget_hits_local >= 0 and layers_processed >= 0",
+    "implies(" + _RC1 + ", propagations < some(relax_cap))",
+]
+R.contract(
+    ONE, "C12", name="_t1_one_graph[propagation-loop region, perf caps off]", callee=False,
+    region=("acc = defaultdict(float)", "while pq and pops"),
+    types={"gid": "str", "csr": CSR_T, "seeds": NMAP, "cfg_t1": "T1CfgDecayFull", "edge_mult": "Dict[str, float]",
+           "radius_cap": "int", "effective_iter_cap_layers": "int", "effective_queue_budget": "int", "node_budget": "float",
+           "relax_cap": "Optional[int]", "perf_enabled": "=False", "dedupe_window_cfg": "int", "visited_cap_cfg": "int",
+           "effective_frontier_cap": "=None"},
+    ghost={"heap_pops": ("int", "0")},     # incremented by the trusted heappop model
+    axioms=[
+        "forall((s, 'Un[Nid]'), s in seeds, t1_reach(s, 0))",
+        "forall((u, 'Un[Nid]'), u in csr, forall(i, 0 <= i < len(csr[u]), forall(d, t1_reach(u, d), t1_reach(csr[u][i][0], d + 1))))",
+    ],
+    requires=[("alpha-nonneg", "implies(cfg_t1['decay']['mode'] == 'attn_quad', cfg_t1['decay']['alpha'] >= 0)")],
+    ensures=[
+        ("pops-within-budget", "0 <= pops and pops <= max(effective_queue_budget, 0)"),
+        ("pops-counter-matches-heap-pops", "pops == heap_pops"),
+        ("relaxations-within-cap", "implies(" + _RC1 + ", propagations <= some(relax_cap))"),
+        ("touched-nodes-reachable-within-radius-and-layer-caps",
+         "forall((v, 'Un[Nid]'), v in acc, v in dist and t1_reach(v, dist[v]) and 0 <= dist[v] and "
+         "(dist[v] == 0 or (dist[v] <= radius_cap and dist[v] <= effective_iter_cap_layers)))"),
+        ("every-seed-touched", "forall((s, 'Un[Nid]'), s in seeds, s in acc)"),
+        ("counters-nonnegative", "propagations >= 0 and radius_cap_hits_local >= 0 and layer_hits_local >= 0 and node_budget_hits_local >= 0"),
+        ("graph-index-and-seeds-untouched", "seq_eq(csr, old(csr)) and seq_eq(seeds, old(seeds)) and seq_eq(edge_mult, old(edge_mult))"),
+    ],
+    raises="none",
+    loops={
+        2: {"inv": [
+            "forall((k, 'Un[Nid]'), k in _done, k in acc and k in dist and dist[k] == 0)",
+            "forall((k, 'Un[Nid]'), k in acc, k in _done)",
+            "forall((k, 'Un[Nid]'), k in dist, k in _done)",
+            "forall(p, 0 <= p < len(pq), pq[p][2] in _done)",
+            "local_max_delta >= 0",
+        ]},
+        3: {"inv": _COMMON_INV + ["0 <= pops and pops <= max(effective_queue_budget, 0) and pops == heap_pops"]},
+        4: {"inv": _COMMON_INV + ["u in dist and u in csr and not stop_relax"]},
+    },
+    locals={"acc": NMAP, "dist": "Dict[Un[Nid], int]", "pq": "List[Tuple[float, Un[Nid], Un[Nid], float]]",
+            "local_t1_dedup_hits": "int", "local_t1_frontier_evicted": "int", "local_max_delta": "float"},
+    feas_timeout_ms=60, named_seqs=True,
+    unreachable_ok=[
+        # perf-cap structures are off in this variant (ring, visited_lru, frontier cap are None)
+        "local_t1_dedup_hits = 1", "ev = len(pq) - effective_frontier_cap", "pq = heapq.nsmallest(", "heapq.heapify(pq)",
+        "local_t1_frontier_evicted = ev", "local_t1_frontier_evicted_total += ev", "if ring:", "local_t1_dedup_hits_total += 1",
+        "if visited_lru and visited_lru.contains(u):", "if visited_lru:",
+        # dead code by the loop invariant: every dist[v] > 0 is <= effective_iter_cap_layers (deeper relaxations are skipped
+        # at the edge, `layer_hits_local`), so a popped node never has layers_processed > effective_iter_cap_layers
+        "if layers_processed > effective_iter_cap_layers:",
+    ],
+)
+
 R.contract(
     T1 + "t1_propagate", "C12", name="t1_propagate[slice-clamps,no-slice-attr]", callee=False,
     region=_REGION,
